@@ -113,10 +113,14 @@ func verify(f *os.File, opts signers.VerifyOpts) ([]*signers.Signature, error) {
 }
 
 func nevra(header *rpmutils.RpmHeader) string {
-	nevra, _ := header.GetNEVRA()
+	nevra, err := header.GetNEVRA()
+	if err != nil || nevra == nil {
+		// header lacks the name/version tags; the caller only uses this for reporting
+		return ""
+	}
 	snevra := nevra.String()
 	// strip .rpm
-	snevra = snevra[:len(snevra)-4]
+	snevra = strings.TrimSuffix(snevra, ".rpm")
 	// strip zero epoch
 	snevra = strings.ReplaceAll(snevra, "-0:", "-")
 	return snevra
